@@ -1,7 +1,8 @@
 (** C01 — evaluation never corrupts memory; errors stay contained: property theorems only. *)
 From ChibiV Require Import Common.Words C01.Model C01.Proofs C01.TableProofs C01.Prims C01.PrimProofs
   C01.StackProofs C01.ConstProofs C01.Spec C01.SpecProofs Gen.C01_VmGuards Gen.C01_Stack Gen.C01_Consts
-  C01.Recursion C01.RecursionProofs C01.RecursionGenProofs Gen.C01_Recursion.
+  C01.Recursion C01.RecursionProofs C01.RecursionGenProofs Gen.C01_Recursion
+  C01.Frame C01.FrameProofs C01.FrameOps C01.FrameGen.
 From Coq Require Import List ZArith.
 Local Open Scope Z_scope.
 
@@ -18,7 +19,7 @@ Theorem vm_ops_guarded : forallb entry_safe vm_table = true.
 Proof. exact vm_ops_guarded_proof. Qed.
 Print Assumptions vm_ops_guarded.
 
-Theorem vm_table_size : (17 <= length vm_table)%nat.
+Theorem vm_table_size : (24 <= length vm_table)%nat.
 Proof. exact vm_table_size_proof. Qed.
 Print Assumptions vm_table_size.
 
@@ -27,7 +28,8 @@ Theorem vm_ops_accesses_safe : forall e, In e vm_table -> forall st, trace_ok st
 Proof. exact vm_ops_accesses_safe_proof. Qed.
 Print Assumptions vm_ops_accesses_safe.
 
-(** the regenerated guards implement the hand-written SPEC of the 17 opcode-backed primitives:
+(** the regenerated guards implement the hand-written SPEC of the 24 opcode-backed primitives (round 3: + char->integer,
+    integer->char, char-upcase, char-downcase, write-char, read-char, peek-char):
     whenever no guard raises, the SPEC does not demand an error ... *)
 Theorem guards_refine_spec : forall p a1 a2 a3 a4,
   passes (prim_code p) a1 a2 a3 a4 -> spec p (prim_args p a1 a2 a3) <> MustError.
@@ -83,6 +85,35 @@ Theorem string_ref_trusts_lead_byte_refuted :
   exists p i, 0 <= i < Z.of_nat (length p) /\ ~ in_bounds (prim_utf8_ref p i).
 Proof. exact prim_utf8_ref_trusts_lead_byte_refuted. Qed.
 Print Assumptions string_ref_trusts_lead_byte_refuted.
+
+(** the REPAIRED sexp_string_utf8_ref (fixes/C01-utf8-truncated-lead-byte.patch) needs no premise on the bytes: for ANY byte
+    content and any cursor inside the string, an error or a read inside the string ... *)
+Theorem string_ref_checked_in_bounds : forall p i, 0 <= i < Z.of_nat (length p) ->
+  match prim_utf8_ref_checked p i with POk rs => Forall in_bounds rs | PErr _ => True end.
+Proof. exact prim_utf8_ref_checked_safe. Qed.
+Print Assumptions string_ref_checked_in_bounds.
+
+(** ... and the new error is raised only for a lead byte that really is cut off by the end of the string *)
+Theorem string_ref_checked_complete : forall p i, 0 <= i < Z.of_nat (length p) ->
+  i + utf8_ref_len (nth (Z.to_nat i) p 0) <= Z.of_nat (length p) ->
+  prim_utf8_ref_checked p i = POk (cons (prim_utf8_ref p i) nil).
+Proof. exact prim_utf8_ref_checked_complete. Qed.
+Print Assumptions string_ref_checked_complete.
+
+(** string-set! (sexp_string_utf8_set, repaired: old_len clamped to the bytes that are left): all five regions of the resize
+    inside their buffers for ANY byte content, cursor inside the string and ANY character (1..4 bytes; integer->char accepts
+    every fixnum and sexp_utf8_char_byte_count answers 1..4 for all of them) *)
+Theorem string_set_regions_in_bounds : forall p i n, (forall k, 0 <= nth k p 0) -> 0 <= i < Z.of_nat (length p) -> 1 <= n <= 4 ->
+  Forall in_bounds (prim_utf8_set true p i n).
+Proof. exact prim_utf8_set_safe. Qed.
+Print Assumptions string_set_regions_in_bounds.
+
+(** the pinned arithmetic computes a negative copy length: witness "aaaa\xf0", (string-set! s 4 #\b) (F-C01-2, repaired) *)
+Theorem string_set_pinned_refuted :
+  exists p i n, (forall k, 0 <= nth k p 0) /\ 0 <= i < Z.of_nat (length p) /\ 1 <= n <= 4 /\
+                ~ Forall in_bounds (prim_utf8_set false p i n).
+Proof. exact prim_utf8_set_unclamped_refuted. Qed.
+Print Assumptions string_set_pinned_refuted.
 
 (** generated obligation: with the constants of the headers the vector allocation size cannot wrap *)
 Theorem vector_size_no_wrap : max_vector_length * word_bytes + vector_header_bytes < B.
@@ -190,3 +221,218 @@ Theorem equal_recursion_bounded : forall (p : list site) f',
   Z.of_nat (length p) <= equal_depth + 4.
 Proof. exact equal_recursion_bounded_proof. Qed.
 Print Assumptions equal_recursion_bounded.
+
+(** ** part 5: the call / return / raise frame protocol (coq/C01/Frame.v mirrors vm.c on the stack ARRAY: every index read or
+    written is logged, the model does not protect itself) *)
+
+(** make_call (vm.c make_call: fixed / rest-list / unused-rest protocols) with the growth arithmetic REGENERATED from vm.c:
+    for all arities, argument counts and flags it writes only stack[top-i-1 .. top+3], reads only stack[top-i-1 .. top-1], all
+    below the length of the (possibly regrown) stack, and changes nothing else *)
+Theorem call_protocol_in_frame : forall MAX tmp1 p i ret_ip s s',
+  0 <= i -> i + 1 <= top s -> 0 <= p_nargs p -> 0 <= p_depth p ->
+  make_call (gen_grow MAX) tmp1 (Some p) i ret_ip s = Enter s' ->
+  (exists new, wlog s' = new ++ wlog s /\
+     Forall (fun k => 0 <= k /\ top s - i - 1 <= k <= top s + 3 /\ k < len s') new) /\
+  (exists new, rlog s' = new ++ rlog s /\
+     Forall (fun k => 0 <= k /\ top s - i - 1 <= k <= top s - 1 /\ k < len s') new) /\
+  (forall k, ~ (top s - i - 1 <= k <= top s + 3) -> mem s' k = mem s k) /\
+  len s <= len s'.
+Proof. exact C01.FrameGen.call_protocol_in_frame_gen. Qed.
+Print Assumptions call_protocol_in_frame.
+
+(** the margin left by sexp_ensure_stack(max_depth+64): what RAISE's 4-word push and sexp_raise's 1-word push rely on *)
+Theorem call_margin : forall MAX tmp1 p i ret_ip s s',
+  0 <= i -> 0 <= p_nargs p -> 0 <= p_depth p ->
+  make_call (gen_grow MAX) tmp1 (Some p) i ret_ip s = Enter s' ->
+  forall t', t' <= fp s' + 4 + p_depth p -> t' + 59 < len s'.
+Proof. exact C01.FrameGen.margin_after_call_gen. Qed.
+Print Assumptions call_margin.
+
+(** the same for ANY growth function with the grow_policy property *)
+Theorem call_protocol_in_frame_any_growth : forall grow tmp1 p i ret_ip s s',
+  grow_ok grow -> 0 <= i -> i + 1 <= top s -> 0 <= p_nargs p -> 0 <= p_depth p ->
+  make_call grow tmp1 (Some p) i ret_ip s = Enter s' ->
+  (exists new, wlog s' = new ++ wlog s /\
+     Forall (fun k => 0 <= k /\ top s - i - 1 <= k <= top s + 3 /\ k < len s') new) /\
+  (exists new, rlog s' = new ++ rlog s /\
+     Forall (fun k => 0 <= k /\ top s - i - 1 <= k <= top s - 1 /\ k < len s') new) /\
+  (forall k, ~ (top s - i - 1 <= k <= top s + 3) -> mem s' k = mem s k) /\
+  len s <= len s'.
+Proof. exact C01.FrameProofs.call_protocol_in_frame. Qed.
+Print Assumptions call_protocol_in_frame_any_growth.
+
+(** the frame the callee sees: header (argument count, return ip, caller, caller's fp), base = top-i-1 for all three protocols *)
+Theorem make_call_frame_shape : forall grow tmp1 p i ret_ip s s',
+  grow_ok grow -> 0 <= i -> 0 <= p_nargs p ->
+  make_call grow tmp1 (Some p) i ret_ip s = Enter s' ->
+  fp s' = top s' - 4 /\ self s' = tmp1 /\ ip s' = 0 /\
+  (exists i', mem s' (fp s') = CFix i' /\ fp s' - i' = top s - i - 1 /\ 0 <= i') /\
+  mem s' (fp s' + 1) = CFix ret_ip /\
+  mem s' (fp s' + 2) = self s /\
+  mem s' (fp s' + 3) = CFix (fp s) /\
+  (forall k, k < top s - i - 1 -> mem s' k = mem s k).
+Proof. exact C01.FrameProofs.make_call_frame_shape. Qed.
+Print Assumptions make_call_frame_shape.
+
+(** the arguments arrive: fixed ones unchanged, the surplus ones as a list in call order / '() / left in place *)
+Theorem make_call_args_delivered : forall grow tmp1 p i ret_ip s s',
+  grow_ok grow -> 0 <= i -> 0 <= p_nargs p ->
+  make_call grow tmp1 (Some p) i ret_ip s = Enter s' ->
+  (* fixed argument m (first argument = m 0, at top-2) unchanged, all protocols *)
+  (forall m, 0 <= m < p_nargs p -> mem s' (fp s' - 1 - m) = mem s (top s - 2 - m)) /\
+  (* rest USED, j = i - nargs > 0: the j surplus arguments, in call order *)
+  (p_variadic p = true -> p_unused_rest p = false -> 0 < i - p_nargs p ->
+   mem s' (fp s' - 1 - p_nargs p)
+   = list_of (rev (seg_up (mem s) (top s - i - 1) (Z.to_nat (i - p_nargs p))))) /\
+  (* rest USED, exact count: '() *)
+  (p_variadic p = true -> p_unused_rest p = false -> i = p_nargs p ->
+   mem s' (fp s' - 1 - p_nargs p) = CNull) /\
+  (* rest UNUSED or not variadic: all i arguments stay in place *)
+  (p_variadic p = false \/ p_unused_rest p = true ->
+   forall m, 0 <= m < i -> mem s' (fp s' - 1 - m) = mem s (top s - 2 - m)).
+Proof. exact C01.FrameOps.make_call_args_delivered. Qed.
+Print Assumptions make_call_args_delivered.
+
+(** RET after any of the protocols pops the procedure and ALL arguments, pushes the result, restores fp / self / ip; one write, at the base *)
+Theorem frame_restored_by_ret : forall grow tmp1 p i ret_ip s s1 s2,
+  grow_ok grow -> 0 <= i -> i + 1 <= top s -> 0 <= p_nargs p -> 0 <= p_depth p ->
+  make_call grow tmp1 (Some p) i ret_ip s = Enter s1 ->
+  fp s2 = fp s1 -> len s1 <= len s2 ->
+  mem s2 (fp s1) = mem s1 (fp s1) -> mem s2 (fp s1 + 1) = mem s1 (fp s1 + 1) ->
+  mem s2 (fp s1 + 2) = mem s1 (fp s1 + 2) -> mem s2 (fp s1 + 3) = mem s1 (fp s1 + 3) ->
+  fp s1 + 5 <= top s2 ->
+  (forall k, k < top s - i - 1 -> mem s2 k = mem s1 k) ->
+  top (op_ret s2) = top s - i /\
+  mem (op_ret s2) (top (op_ret s2) - 1) = mem s2 (top s2 - 1) /\
+  fp (op_ret s2) = fp s /\ self (op_ret s2) = self s /\ ip (op_ret s2) = ret_ip /\
+  (forall k, k < top s - i - 1 -> mem (op_ret s2) k = mem s k) /\
+  wlog (op_ret s2) = (top s - i - 1) :: wlog s2 /\
+  0 <= top s - i - 1 < len s2 /\
+  (exists i', rlog (op_ret s2) = [fp s1 + 3; fp s1 + 1; fp s1 + 2; top s2 - 1; fp s1] ++ rlog s2 /\
+              fp s1 - i' = top s - i - 1 /\ 0 <= i') /\
+  len (op_ret s2) = len s2.
+Proof. exact C01.FrameProofs.frame_restored_by_ret. Qed.
+Print Assumptions frame_restored_by_ret.
+
+(** SEXP_OP_CALL as a whole *)
+Theorem op_call_in_frame : forall grow decode i s p s',
+  grow_ok grow -> 0 <= i -> i + 1 <= top s ->
+  decode (mem s (top s - 1)) = Some p -> 0 <= p_nargs p -> 0 <= p_depth p ->
+  op_call grow decode i s = Enter s' ->
+  acc (fun k => top s - i - 1 <= k <= top s + 3 /\ 0 <= k < len s')
+      (fun k => top s - i - 1 <= k <= top s - 1 /\ 0 <= k < len s') s s' /\
+  len s <= len s' /\ self s' = mem s (top s - 1) /\ fp s' = top s' - 4 /\
+  (exists i', mem s' (fp s') = CFix i' /\ fp s' - i' = top s - i - 1 /\ 0 <= i') /\
+  mem s' (fp s' + 1) = CFix (ip s + 1) /\ mem s' (fp s' + 2) = self s /\
+  mem s' (fp s' + 3) = CFix (fp s).
+Proof. exact C01.FrameOps.op_call_in_frame. Qed.
+Print Assumptions op_call_in_frame.
+
+(** SEXP_OP_TAIL_CALL: the frame is reused (same base), the argument copy never clobbers an unread source, old return info carried over *)
+Theorem op_tail_call_in_frame : forall grow decode i s j p s',
+  grow_ok grow -> mem s (fp s) = CFix j -> 0 <= j <= fp s -> 0 <= i ->
+  fp s + 4 + i + 1 <= top s -> top s <= len s ->
+  decode (mem s (top s - 1)) = Some p -> 0 <= p_nargs p -> 0 <= p_depth p ->
+  op_tail_call grow decode i s = Enter s' ->
+  acc (fun k => fp s - j <= k <= fp s - j + i + 4 /\ 0 <= k < len s')
+      (fun k => fp s - j <= k <= top s - 1 /\ 0 <= k < len s') s s' /\
+  len s <= len s' /\ self s' = mem s (top s - 1) /\ fp s' = top s' - 4 /\
+  (exists i', mem s' (fp s') = CFix i' /\ fp s' - i' = fp s - j /\ 0 <= i') /\
+  (* the return information of the reused frame is carried over *)
+  mem s' (fp s' + 1) = CFix (unbox (mem s (fp s + 1))) /\
+  mem s' (fp s' + 2) = mem s (fp s + 2) /\
+  mem s' (fp s' + 3) = CFix (unbox (mem s (fp s + 3))).
+Proof. exact C01.FrameOps.op_tail_call_in_frame. Qed.
+Print Assumptions op_tail_call_in_frame.
+
+(** SEXP_OP_APPLY1 with a proper list of any length: ensure(i+64+depth) makes room for the spread arguments *)
+Theorem op_apply1_in_frame : forall grow decode args s j p s',
+  grow_ok grow -> mem s (fp s) = CFix j -> 0 <= j <= fp s -> fp s + 6 <= top s ->
+  decode (mem s (top s - 1)) = Some p -> 0 <= p_nargs p -> 0 <= p_depth p ->
+  op_apply1 grow decode args true s = Enter s' ->
+  acc (fun k => fp s - j <= k <= fp s - j + Z.of_nat (length args) + 4 /\ 0 <= k < len s')
+      (fun k => (fp s - j <= k <= fp s - j + Z.of_nat (length args) \/ fp s <= k <= top s - 1)
+                /\ 0 <= k < len s') s s' /\
+  len s <= len s' /\ self s' = mem s (top s - 1) /\ fp s' = top s' - 4 /\
+  (exists i', mem s' (fp s') = CFix i' /\ fp s' - i' = fp s - j /\ 0 <= i') /\
+  mem s' (fp s' + 1) = CFix (unbox (mem s (fp s + 1))) /\
+  mem s' (fp s' + 2) = mem s (fp s + 2) /\
+  mem s' (fp s' + 3) = CFix (unbox (mem s (fp s + 3))).
+Proof. exact C01.FrameOps.op_apply1_in_frame. Qed.
+Print Assumptions op_apply1_in_frame.
+
+(** ... and with an improper list: top restored, error raised, writes inside the stack *)
+Theorem op_apply1_improper_in_frame : forall grow decode args s j msg s',
+  grow_ok grow -> mem s (fp s) = CFix j -> 0 <= j <= fp s -> fp s + 6 <= top s ->
+  (forall p, decode (mem s (top s - 1)) = Some p -> 0 <= p_depth p) ->
+  op_apply1 grow decode args false s = Raise msg s' ->
+  msg = MSG_IMPROPER /\ top s' = top s + 1 /\
+  acc (fun k => (fp s - j <= k <= fp s - j + Z.of_nat (length args) \/ k = top s)
+                /\ 0 <= k < len s')
+      (fun k => fp s <= k <= top s /\ 0 <= k < len s') s s' /\
+  fp s' = unbox (mem s (fp s + 3)) /\ len s <= len s'.
+Proof. exact C01.FrameOps.op_apply1_improper_in_frame. Qed.
+Print Assumptions op_apply1_improper_in_frame.
+
+(** CALL ... RET round trip *)
+Theorem frame_round_trip_call : forall grow decode i s p s1 s2,
+  grow_ok grow -> 0 <= i -> i + 1 <= top s ->
+  decode (mem s (top s - 1)) = Some p -> 0 <= p_nargs p -> 0 <= p_depth p ->
+  op_call grow decode i s = Enter s1 ->
+  fp s2 = fp s1 -> len s1 <= len s2 ->
+  mem s2 (fp s1) = mem s1 (fp s1) -> mem s2 (fp s1 + 1) = mem s1 (fp s1 + 1) ->
+  mem s2 (fp s1 + 2) = mem s1 (fp s1 + 2) -> mem s2 (fp s1 + 3) = mem s1 (fp s1 + 3) ->
+  fp s1 + 5 <= top s2 ->
+  (forall k, k < top s - i - 1 -> mem s2 k = mem s1 k) ->
+  top (op_ret s2) = top s - i /\
+  mem (op_ret s2) (top (op_ret s2) - 1) = mem s2 (top s2 - 1) /\
+  fp (op_ret s2) = fp s /\ self (op_ret s2) = self s /\ ip (op_ret s2) = ip s + 1 /\
+  (forall k, k < top s - i - 1 -> mem (op_ret s2) k = mem s k) /\
+  wlog (op_ret s2) = (top s - i - 1) :: wlog s2 /\
+  0 <= top s - i - 1 < len s2.
+Proof. exact C01.FrameOps.frame_round_trip_call. Qed.
+Print Assumptions frame_round_trip_call.
+
+(** RAISE with a handler pushes exactly four words at top..top+3 *)
+Theorem raise_push_in_bounds : forall htmp h is_exn s s',
+  op_raise htmp (Some h) is_exn s = Handler s' ->
+  wlog s' = [top s + 3; top s + 2; top s + 1; top s] ++ wlog s /\ rlog s' = rlog s /\
+  top s' = top s + 4 /\ fp s' = top s /\ self s' = htmp /\ len s' = len s /\
+  mem s' (fp s') = CFix 1 /\ mem s' (fp s' + 1) = CFix (ip s) /\
+  mem s' (fp s' + 2) = self s /\ mem s' (fp s' + 3) = CFix (fp s) /\
+  mem s' (fp s' - 1) = mem s (top s - 1) /\
+  (forall k, k < top s -> mem s' k = mem s k) /\
+  (0 <= top s -> top s + 3 < len s ->
+   Forall (fun k => 0 <= k < len s') [top s + 3; top s + 2; top s + 1; top s]).
+Proof. exact C01.FrameProofs.raise_push_in_bounds. Qed.
+Print Assumptions raise_push_in_bounds.
+
+(** the error exit of sexp_apply (repaired by /repo 8ddaf81) leaves the context's top where it was on entry, whatever the frames of the failed computation *)
+Theorem raise_to_toplevel_restores : forall entry_top s, apply_exit entry_top true s = entry_top.
+Proof. exact C01.FrameProofs.raise_to_toplevel_restores. Qed.
+Print Assumptions raise_to_toplevel_restores.
+
+(** ... and so does the normal exit (prologue, call, body, RET into the final resumer, DONE) *)
+Theorem apply_normal_exit_restores_top : forall grow tmp1 p args s s1 s2,
+  grow_ok grow -> 0 <= p_nargs p ->
+  apply_entry grow tmp1 (Some p) args s = Enter s1 ->
+  (* the body ran and left a result on top of the same frame *)
+  fp s2 = fp s1 ->
+  mem s2 (fp s1) = mem s1 (fp s1) -> mem s2 (fp s1 + 1) = mem s1 (fp s1 + 1) ->
+  mem s2 (fp s1 + 2) = mem s1 (fp s1 + 2) -> mem s2 (fp s1 + 3) = mem s1 (fp s1 + 3) ->
+  (* RET into the final resumer, whose code is DONE -> end_loop *)
+  apply_exit (top s) false (op_ret s2) = top s /\
+  fp (op_ret s2) = top s - 4 /\ self (op_ret s2) = FINAL_RESUMER /\ ip (op_ret s2) = 0 /\
+  mem (op_ret s2) (top s) = mem s2 (top s2 - 1) /\
+  wlog (op_ret s2) = top s :: wlog s2.
+Proof. exact C01.FrameProofs.apply_normal_exit_restores_top. Qed.
+Print Assumptions apply_normal_exit_restores_top.
+
+(** sexp_eval_op: (top, params, child) of the calling context after = before, for a value and for an exception alike *)
+Theorem eval_op_restores_context : forall ctx2 run c,
+  c_top (fst (eval_op ctx2 run c)) = c_top c /\
+  c_params (fst (eval_op ctx2 run c)) = c_params c /\
+  c_child (fst (eval_op ctx2 run c)) = c_child c /\
+  snd (eval_op ctx2 run c) = snd (run (mkctx (c_top c) CNull ctx2)).
+Proof. exact C01.FrameProofs.eval_op_restores_context. Qed.
+Print Assumptions eval_op_restores_context.
